@@ -7,10 +7,11 @@ CONSTANTS
   MaxAtoms = 2
   GuardSet = {"none", "other"}
   Narrow = TRUE
-  Shapes = {"one", "chain"}
+  Shapes = {"one", "chain", "dia"}
   ForeignGuardMisread = TRUE
   StrictPositiveMin = TRUE
   RaiseOnConflict = TRUE
+  SnapshotStacking = FALSE
   NegativeMaxIsError = FALSE
 INVARIANT TypeOK
 INVARIANT PinnedExact
